@@ -147,8 +147,15 @@ def r06_2(run, model):
         same = all(a.get(c) == b.get(c) for c in ("wildcard", "absent"))
         run.ob("R06.2", "int/string siblings agree", same, site(CM, None), "wildcard/absent push tables are identical" if same else f"int: {a}; string: {b}")
     bf = model.fn("compile_bool_case", CM)
-    txt = S.norm_ws(run.facts.text(CM, bf.body["sp"]))
-    ok = "true_rows.push(r.clone());false_rows.push(r);" in txt or "false_rows.push(r.clone());true_rows.push(r);" in txt
+    # a block that pushes one and the same row onto two different vectors (a clone and the row itself)
+    ok = False
+    for blk in S.find(bf.body, "Block"):
+        ps = [st["expr"] for st in blk["stmts"] if st["k"] == "ExprStmt" and st["expr"]["k"] == "MethodCall" and st["expr"]["method"] == "push"
+              and st["expr"]["recv"]["k"] == "Path" and len(st["expr"]["args"]) == 1]
+        if len(ps) == 2 and ps[0]["recv"]["segs"] != ps[1]["recv"]["segs"]:
+            a0, a1 = (re.sub(r"\.clone\(\)$", "", S.norm_ws(run.facts.text(CM, p_["args"][0]["sp"]))) for p_ in ps)
+            if a0 == a1 and re.fullmatch(r"\w+", a0):
+                ok = True
     run.ob("R06.2", "compile_bool_case|absent column -> both branches", ok, site(CM, bf.node["sp"]), "a row without a bool test is copied to the true and the false branch" if ok else "absent-column rows are not copied to both branches")
 
 
@@ -310,9 +317,15 @@ def r06_8(run, model):
         for loop in S.find(f.body, "For"):
             for st in loop["body"]["stmts"]:
                 e = st.get("expr") if st["k"] == "ExprStmt" else None
-                if not (e and e["k"] == "If" and any(True for _ in S.calls(e["cond"], "remove_column"))):
+                if e and e["k"] == "If" and any(True for _ in S.calls(e["cond"], "remove_column")):
+                    els = e.get("else")
+                elif e and e["k"] == "Match" and any(True for _ in S.calls(e["scrut"], "remove_column")):
+                    # the same test written as a match: the row without the column is the None (or catch-all) arm
+                    pats = [(S.norm_ws(run.facts.text(CM, a["pat"]["sp"])), a) for a in e["arms"]]
+                    none = [a for p_, a in pats if p_ == "None"] or [a for p_, a in pats if p_ == "_"]
+                    els = none[0]["body"] if none else None
+                else:
                     continue
-                els = e.get("else")
                 n += 1
                 if els is None:
                     run.ob("R06.8", f"{f.name}|unconstrained rows are kept", False, site(CM, e["sp"]), "rows that do not mention the column are dropped (no else branch)",
@@ -326,32 +339,35 @@ def r06_8(run, model):
                 run.ob("R06.8", f"{f.name}|unconstrained rows go to every sub-matrix", ok, site(CM, els["sp"]),
                        f"{len(pushes)} pushes, conditional pushes: {len(cond)}, early exits: {exits or 'none'}",
                        witness="match on an enum where every variant already has a (refutable) row: a later catch-all arm is not copied into the variants' sub-matrices; values not covered by the earlier rows hit `missing` or fall through")
-    run.floor("row-distribution loops", n, 5)
+    run.floor("row-distribution loops", n, 3)
 
 
 def r06_9(run, model):
     run.rule("R06.9", "a destructuring let compiles to a two-row matrix: the pattern row and a wildcard row whose body is the failure call, so a "
                       "value that does not match fails instead of continuing")
     n = 0
+    fails = {g.name for g in model.fns(CM) if g.body is not None and '"missing"' in S.norm_ws(run.facts.text(CM, g.body["sp"]))}
     for f in model.fns(CM):
-        if f.body is None or f.name not in ("compile_block_exprs", "compile_expr"):
+        if f.body is None:
             continue
-        for l in S.find(f.body, "Local"):
-            if l["pat"]["k"] != "PIdent" or l["pat"]["name"] != "rows" or l.get("init") is None or l["init"]["k"] != "Macro" or l["init"]["name"] != "vec":
+        for mac in S.walk(f.body):
+            if mac["k"] != "Macro" or mac.get("name") != "vec":
                 continue
-            rows = [a for a in (l["init"].get("args") or []) if a["k"] == "Struct" and a["segs"][-1] == "Row"]
+            rows = [a for a in (mac.get("args") or []) if a["k"] == "Struct" and a["segs"][-1] == "Row"]
             if not rows:
                 continue
+            # the matrix of a destructuring let: its first row tests the let's own pattern (a variable, not a literal form)
             first = S.norm_ws(run.facts.text(CM, rows[0]["sp"]))
-            if "pat:pat.clone()" not in first:
+            if not re.search(r"\bpat:\w+\.clone\(\)", first):
                 continue
             n += 1
             last = S.norm_ws(run.facts.text(CM, rows[-1]["sp"]))
-            ok = len(rows) >= 2 and "Pat::PWild" in last and '"missing"' in last
-            run.ob("R06.9", f"{f.name}|let-pattern matrix ends with wildcard -> failure", ok, site(CM, l["sp"]),
+            failing = '"missing"' in last or any(S.callee_name(c) in fails for c in S.walk(rows[-1]) if c["k"] in ("Call", "MethodCall"))
+            ok = len(rows) >= 2 and "Pat::PWild" in last and failing
+            run.ob("R06.9", f"{f.name}|let-pattern matrix ends with wildcard -> failure", ok, site(CM, mac["sp"]),
                    f"{len(rows)} rows; last row {'is the wildcard/failure row' if ok else 'is not a wildcard row calling missing'}",
                    witness="let (\"ok\", n) = pair;  with a non-matching string: the emitted switch has no default and execution continues")
-    run.floor("destructuring-let matrices", n, 2)
+    run.floor("destructuring-let matrices", n, 1)
 
 
 def r06_10(run, model):
@@ -398,7 +414,9 @@ def r06_11(run, model):
         if "SwitchType{" in t and "bind:Some(" in t and re.search(r"if\w+==\w+", t):
             resolvers.add(g.name)
     n = 0
-    for st in S.walk(f.body):
+    # the function and the per-kind helpers it hands a branch to (compile_int_match_branch and its siblings)
+    sites_ = [(g, st) for g in model.scope_fns(f) if g.name not in resolvers for st in S.walk(g.body)]
+    for g, st in sites_:
         if st["k"] != "Struct" or not S.norm_ws(run.facts.text(GO, st["sp"])).startswith("goast::Stmt::SwitchType{"):
             continue
         txt = S.norm_ws(run.facts.text(GO, st["sp"]))
@@ -407,9 +425,9 @@ def r06_11(run, model):
             continue
         n += 1
         # the enclosing match arm: pushes onto `cases`
-        par = S.Parents(f.body)
+        par = S.Parents(g.body)
         arm = next((a for a in par.ancestors(st) if a["k"] == "Arm"), None)
-        scope = arm["body"] if arm is not None else f.body
+        scope = arm["body"] if arm is not None else g.body
         pushes = [c for c in S.walk(scope) if c["k"] == "MethodCall" and c["method"] == "push" and S.is_path(c["recv"], "cases")]
         lets = {l["pat"]["name"]: l["init"] for l in S.find(scope, "Local") if l["pat"]["k"] == "PIdent" and l.get("init") is not None}
         good = bool(pushes)
@@ -424,7 +442,7 @@ def r06_11(run, model):
                site(GO, st["sp"]), f"resolver functions: {sorted(resolvers) or 'none'}; case blocks pushed: {len(pushes)}",
                witness="match s { Circle(r) => match s { Circle(q) => r + q, _ => 0 }, .. } emits `switch s__0 := s__0.(type)` inside `case Circle:`, "
                        "where s__0 is a struct: Go rejects it (s__0 (variable of type Circle) is not an interface)")
-    run.floor("type switches that rebind their scrutinee", n, 2)
+    run.floor("type switches that rebind their scrutinee", n, 1)
 
 
 def r06_13(run, model):
